@@ -693,19 +693,22 @@ class BaseShampooPreconditionerList(
             exception (Exception): The exception to raise.
 
         """
+        # NOTE: The counters are kept in the local list (one counter per block) so that they
+        # survive changes of the gradient selector; preconditioner_index refers to the masked lists.
+        local_preconditioner_index = self._masked_local_index_list[preconditioner_index]
         if all(success_tracker):
             # Reset counter for failed amortized computations.
-            self._masked_failed_amortized_computation_counter_list[
-                preconditioner_index
+            self._local_failed_amortized_computation_counter_list[
+                local_preconditioner_index
             ] = 0
         else:
             # Increment counter for failed amortized computations.
-            self._masked_failed_amortized_computation_counter_list[
-                preconditioner_index
+            self._local_failed_amortized_computation_counter_list[
+                local_preconditioner_index
             ] += 1
             # Raise the exception if the tolerance at the given index is exceeded.
-            failure_counter = self._masked_failed_amortized_computation_counter_list[
-                preconditioner_index
+            failure_counter = self._local_failed_amortized_computation_counter_list[
+                local_preconditioner_index
             ]
             tolerance = (
                 self._preconditioner_config.num_tolerated_failed_amortized_computations
@@ -774,8 +777,8 @@ class BaseShampooPreconditionerList(
         # Masked lists are the list of active preconditioners or values after filtering out gradients with None.
         self._masked_order_list: tuple[int, ...] = self._local_order_list
         self._masked_root_list: tuple[int, ...] = self._local_root_list
-        self._masked_failed_amortized_computation_counter_list: list[int] = (
-            self._local_failed_amortized_computation_counter_list
+        self._masked_local_index_list: tuple[int, ...] = tuple(
+            range(len(self._local_kronecker_factors_list))
         )
         self._masked_kronecker_factors_list: tuple[
             ShampooKroneckerFactorsListType,
@@ -810,13 +813,8 @@ class BaseShampooPreconditionerList(
             self._masked_root_list: tuple[int, ...] = compress_list(  # type: ignore[no-redef]
                 self._local_root_list, local_grad_selector
             )
-            self._masked_failed_amortized_computation_counter_list: list[int] = (  # type: ignore[no-redef]
-                list(
-                    compress_list(
-                        self._local_failed_amortized_computation_counter_list,
-                        local_grad_selector,
-                    )
-                )
+            self._masked_local_index_list: tuple[int, ...] = compress_list(  # type: ignore[no-redef]
+                range(len(self._local_kronecker_factors_list)), local_grad_selector
             )
             self._masked_kronecker_factors_list: tuple[  # type: ignore[no-redef]
                 ShampooKroneckerFactorsListType,
